@@ -20,7 +20,17 @@ class X:
         return isinstance(o, X)
 
 
-LEAVES = [1, "a", X()]
+class Ver(tuple):
+    """A tuple subclass that is not a namedtuple (like time.struct_time or os.stat_result): an opaque leaf for both functions."""
+
+    def bump(self):
+        return Ver(self[:-1] + (self[-1] + 1,))
+
+    def __repr__(self):
+        return f"Ver{tuple(self)!r}"
+
+
+LEAVES = [1, "a", X(), Ver((3, 4))]
 
 
 def mk(kind, kids):
@@ -227,7 +237,7 @@ def run(ctx):
         "scheduler_evaluations": sum(r["n"] for r in res),
         "exhaustive": True,
         "rule": "all nestings of depth <=2 over list, tuple, namedtuple, set, dict (values and keys), dataclass, frozen dataclass, dataclasses "
-        "with a non-init field (plain and frozen), leaves {1,'a',X}; oracle: map_nested_value with an injective function equals a reference "
+        "with a non-init field (plain and frozen), leaves {1,'a',X, an instance of a plain tuple subclass}; oracle: map_nested_value with an injective function equals a reference "
         "rebuild (type-exact), the leaves it visits equal the leaves iter_nested_value yields equal the reference leaves; and "
         "Scheduler.run replaces X=ident(7) everywhere; distinct = distinct two-level type shapes",
         "samples": [repr(vals[i]) for i in (0, len(vals) // 2, len(vals) - 1)],
